@@ -28,6 +28,13 @@ var orderDirs = []string{
 	"internal/j5s/protoprint",
 	"internal/j5s/protoprint/optionreflect",
 	"internal/j5s/sourcewalk",
+	// the front end on the compile path
+	"internal/j5s/j5parse",
+	"internal/bcl",
+	"internal/bcl/internal/parser",
+	"internal/bcl/internal/walker",
+	"internal/bcl/internal/walker/schema",
+	"lib/j5reflect",
 }
 
 func exprString(tp *typedPkg, e ast.Expr) string {
@@ -49,6 +56,9 @@ func genMapRange(repo string) (string, error) {
 			return "", err
 		}
 		short := dir[strings.LastIndex(dir, "/")+1:]
+		if dir == "internal/bcl/internal/walker/schema" {
+			short = "walker/schema"
+		}
 		for fi, f := range tp.files {
 			for _, d := range f.Decls {
 				fd, ok := d.(*ast.FuncDecl)
@@ -117,8 +127,8 @@ func genMapRange(repo string) (string, error) {
 	var sb strings.Builder
 	sb.WriteString("From Coq Require Import String List.\nImport ListNotations.\nLocal Open Scope string_scope.\n")
 	sb.WriteString("(* Every iteration whose order the Go language / protobuf-go leaves unspecified, in the packages on the\n")
-	sb.WriteString("   compile and print path (j5convert, protobuild, protoprint, optionreflect, sourcewalk), by go/types:\n")
-	sb.WriteString("   `range` over a map, maps.Keys/Values, protoreflect Message.Range / Map.Range, proto.RangeExtensions.\n")
+	sb.WriteString("   compile and print path (j5convert, protobuild, protoprint, optionreflect, sourcewalk, j5parse, internal/bcl/**, lib/j5reflect), by go/types:\n")
+	sb.WriteString("   `range` over a map, maps.Keys/Values, protoreflect Message.Range / Map.Range, sync.Map.Range, reflect MapKeys/MapRange, proto.RangeExtensions.\n")
 	sb.WriteString("   (package, file, function, kind, ranged expression) *)\n")
 	sb.WriteString("Definition sites : list (string * string * string * string * string) := [\n")
 	var rows []string
